@@ -114,3 +114,25 @@ Definition decode_key (k : option (N * N)) : option (N * N) :=
   | None => None
   | Some (id, e) => if decide (e = 0 ∨ 7 < e)%N then None else Some (id, (e - 1)%N)
   end.
+
+(* ---- the harness view: after every op, round-trip the value the op wrote *)
+Definition wslot (o : op) : option nat :=
+  match o with
+  | ONew d _ | OInc d _ _ _ | ODec d _ _ _ | OEnable d _ | OLset d _ _ _ _ | OMvset d _ _ _ | OAdd d _ _ _
+  | ORem d _ _ | OMset d _ _ _ _ | OMrem d _ _ | OMget d _ _ | OMerge d _ _ | OClone d _ | ODelta d _
+  | OCompact d _ | OFold d _ _ => Some d
+  | OReset s => Some s
+  | OLaws _ _ _ => None
+  end.
+Definition rt_tree (v : option val) : tree :=
+  match v with
+  | None => T []
+  | Some x => match codec_rt x with None => T [L 0] | Some t => T [L 1; t] end
+  end.
+Fixpoint run_rt (m : slots) (p : list op) : list tree :=
+  match p with
+  | [] => []
+  | o :: r => let '(m', _) := exec m o in
+              rt_tree (match wslot o with Some d => sget m' d | None => None end) :: run_rt m' r
+  end.
+Definition check_rt (p : list op) (want : list tree) : option nat := first_diff 0 (run_rt [] p) want.
